@@ -103,10 +103,13 @@ struct Cfg {
     state: Vec<bool>,
     slots: Vec<Option<OpR>>,
     bad: Option<String>,
+    /// fingerprint of what the instrumented crate logged during the run (pool events, RVB proposal trace);
+    /// 0 for a configuration as such. It only refines the partition of the draw space, never the kernel.
+    fp: u64,
 }
 impl Cfg {
     fn empty(state: Vec<bool>, l: usize) -> Cfg {
-        Cfg { state, slots: vec![None; l], bad: None }
+        Cfg { state, slots: vec![None; l], bad: None, fp: 0 }
     }
     fn n(&self) -> usize {
         self.slots.iter().filter(|s| s.is_some()).count()
@@ -170,13 +173,15 @@ fn read_cfg(state: &[bool], m: &FastOps) -> Cfg {
             })
         })
         .collect();
-    Cfg { state: state.to_vec(), slots, bad: None }
+    Cfg { state: state.to_vec(), slots, bad: None, fp: 0 }
 }
 
 #[derive(Default)]
 struct Interner {
     map: HashMap<Cfg, u32>,
     cfgs: Vec<Cfg>,
+    /// id of the same configuration without fingerprint
+    canon: Vec<u32>,
 }
 impl Interner {
     fn id(&mut self, c: Cfg) -> u32 {
@@ -185,8 +190,21 @@ impl Interner {
         }
         let i = self.cfgs.len() as u32;
         self.cfgs.push(c.clone());
-        self.map.insert(c, i);
+        self.map.insert(c.clone(), i);
+        self.canon.push(i);
+        if c.fp != 0 {
+            let mut plain = c;
+            plain.fp = 0;
+            let j = self.id(plain);
+            self.canon[i as usize] = j;
+        }
         i
+    }
+}
+
+fn hash_str(h: &mut u64, s: &str) {
+    for b in s.bytes() {
+        *h = (*h ^ b as u64).wrapping_mul(0x0000_0100_0000_01B3);
     }
 }
 
@@ -445,6 +463,7 @@ type Sig = [Obs; 2];
 const GOFF: u64 = 0x0005_A5A5_A5A5_A000;
 const KMAX: u32 = 10; // trailing-ones classes 0..KMAX-1 individually, >= KMAX as one tail class
 const TWO64: f64 = 18446744073709551616.0;
+const NRAND: u64 = 8; // random continuations per piece validation
 
 #[derive(Default, Clone, Copy)]
 struct Counters {
@@ -458,6 +477,7 @@ struct Counters {
     ones_nodes: u64,
     retry_pieces: u64,
     mc_checks: u64,
+    refinements: u64,
 }
 
 struct Ex<'a> {
@@ -471,6 +491,19 @@ struct Ex<'a> {
     trunc: f64,
     maxdepth: usize,
     budget: usize,
+    /// explored subtrees by exact prefix of representative words (re-used when the row is re-explored after a refinement)
+    memo: HashMap<Vec<u64>, Rc<Tree>>,
+    /// pieces (node prefix, start, end) already validated against their subtree
+    validated: std::collections::HashSet<(Vec<u64>, u64, u128)>,
+    /// boundaries forced by counterexamples: node prefix -> words at which a new piece must start
+    hints: HashMap<Vec<u64>, Vec<u64>>,
+    /// child prefixes that must be explored themselves (never merged with a sibling)
+    nomerge: std::collections::HashSet<Vec<u64>>,
+}
+
+struct Counterexample {
+    words: Vec<u64>,
+    seed: u64,
 }
 
 fn ones_rep(high: u64, k: u32) -> u64 {
@@ -491,12 +524,24 @@ impl<'a> Ex<'a> {
         let k = self.k;
         let r = catch(|| sys.run(cfg, k));
         let cons = tl_consumed() as u32;
-        // keep the hook logs of the instrumented crate from growing
-        let _ = qmc::util::allocator::verif_log::take();
-        let _ = qmc::sse::qmc_traits::rvb::verif_hooks::take_trace();
+        // what the instrumented crate logged (also keeps these logs from growing)
+        let mut fp: u64 = 0xCBF2_9CE4_8422_2325;
+        for ev in qmc::util::allocator::verif_log::take() {
+            hash_str(&mut fp, ev.0);
+            fp = (fp ^ (ev.1 as u8 as u64)).wrapping_mul(0x0000_0100_0000_01B3);
+        }
+        for t in qmc::sse::qmc_traits::rvb::verif_hooks::take_trace() {
+            hash_str(&mut fp, &format!("{:?}", t));
+        }
+        if fp == 0 {
+            fp = 1;
+        }
         let c = match r {
-            Ok(c) => c,
-            Err(msg) => Cfg { state: vec![], slots: vec![], bad: Some(if msg.contains(BUDGET_MSG) { "DIVERGED".to_string() } else { format!("PANIC {}", msg) }) },
+            Ok(mut c) => {
+                c.fp = fp;
+                c
+            }
+            Err(msg) => Cfg { state: vec![], slots: vec![], bad: Some(if msg.contains(BUDGET_MSG) { "DIVERGED".to_string() } else { format!("PANIC {}", msg) }), fp: 0 },
         };
         Obs { out: self.intern.id(c), cons }
     }
@@ -611,6 +656,15 @@ impl<'a> Ex<'a> {
     }
 
     fn explore(&mut self, pre: &mut Vec<u64>, w: f64) -> Result<Rc<Tree>, String> {
+        if let Some(t) = self.memo.get(pre.as_slice()) {
+            return Ok(t.clone());
+        }
+        let t = self.explore_inner(pre, w)?;
+        self.memo.insert(pre.clone(), t.clone());
+        Ok(t)
+    }
+
+    fn explore_inner(&mut self, pre: &mut Vec<u64>, w: f64) -> Result<Rc<Tree>, String> {
         self.ct.nodes += 1;
         let base0 = self.obs(pre);
         let d = pre.len();
@@ -644,6 +698,16 @@ impl<'a> Ex<'a> {
         for i in 0..pts.len() - 1 {
             self.breaks(pre, pts[i], sg[i], pts[i + 1], sg[i + 1], &mut starts, true)?;
         }
+        // boundaries forced by counterexamples
+        let forced: Vec<u64> = self.hints.get(pre.as_slice()).cloned().unwrap_or_default();
+        let has_hints = !forced.is_empty();
+        for b in forced {
+            if !starts.iter().any(|x| x.0 == b) {
+                let so = self.sig(pre, b);
+                starts.push((b, so));
+            }
+        }
+        starts.sort_by(|a, b| a.0.cmp(&b.0));
         // work list of candidate pieces
         let mut todo: VecDeque<(u64, u128, Sig)> = VecDeque::new();
         for i in 0..starts.len() {
@@ -666,11 +730,14 @@ impl<'a> Ex<'a> {
                 let mid = s + ((e - s as u128) / 2) as u64;
                 // merge with an explored sibling that behaves identically?
                 let mut child: Option<Rc<Tree>> = None;
-                let sib: Option<Rc<Tree>> = done.iter().find(|x| !x.3 && x.2 == so).and_then(|x| x.4.clone());
+                let mut child_pre = pre.clone();
+                child_pre.push(s);
+                let may_merge = !has_hints && !self.nomerge.contains(&child_pre) && !self.memo.contains_key(&child_pre);
+                let sib: Option<Rc<Tree>> = if may_merge { done.iter().find(|x| !x.3 && x.2 == so).and_then(|x| x.4.clone()) } else { None };
                 if let Some(t) = sib {
                     let mut lv = vec![];
                     Self::leaves_of(&t, &mut vec![], &mut lv);
-                    if !lv.is_empty() && self.disagrees(pre, s, &lv).is_none() && self.disagrees(pre, last, &lv).is_none() && self.disagrees(pre, mid, &lv).is_none() {
+                    if !lv.is_empty() && lv.len() <= 256 && self.disagrees(pre, s, &lv).is_none() && self.disagrees(pre, last, &lv).is_none() && self.disagrees(pre, mid, &lv).is_none() {
                         self.ct.merges += 1;
                         child = Some(t);
                     }
@@ -688,10 +755,22 @@ impl<'a> Ex<'a> {
                 Self::leaves_of(&t, &mut vec![], &mut lv);
                 let mut end = e;
                 loop {
+                    if self.validated.contains(&(pre.clone(), s, end)) {
+                        break;
+                    }
                     let last = (end - 1) as u64;
                     let mid = s + ((end - s as u128) / 2) as u64;
                     let mut bad: Option<(u64, usize)> = None;
-                    for tw in [last, mid] {
+                    // far end, middle, and (for small subtrees) the probe grid inside the piece: guards against
+                    // a hidden stretch of different behaviour whose two continuations look alike
+                    let mut tws: Vec<u64> = vec![last, mid];
+                    let extra = (600 / lv.len().max(1)).min(16);
+                    let inside: Vec<u64> = pts.iter().cloned().filter(|g| *g > s && (*g as u128) < end).collect();
+                    if !inside.is_empty() && extra > 0 {
+                        let stride = (inside.len() + extra - 1) / extra;
+                        tws.extend(inside.iter().step_by(stride.max(1)).cloned());
+                    }
+                    for tw in tws.iter().cloned() {
                         if tw == s {
                             continue;
                         }
@@ -699,6 +778,56 @@ impl<'a> Ex<'a> {
                             bad = Some((tw, i));
                             break;
                         }
+                    }
+                    // joint dependence on later words: the far end and the middle must also behave like the
+                    // representative under random continuations (not only under the representative paths)
+                    let mut bad_rand: Option<(u64, u64)> = None;
+                    if bad.is_none() {
+                        'outer: for c in 0..NRAND {
+                            let fb = 0x7A11_0000 + 977 * c + 31 * d as u64;
+                            pre.push(s);
+                            let want = self.obs_fb(pre, fb);
+                            pre.pop();
+                            for tw in [last, mid] {
+                                if tw == s {
+                                    continue;
+                                }
+                                pre.push(tw);
+                                let got = self.obs_fb(pre, fb);
+                                pre.pop();
+                                if got != want {
+                                    bad_rand = Some((tw, fb));
+                                    break 'outer;
+                                }
+                            }
+                        }
+                    }
+                    if let Some((tw, fb)) = bad_rand {
+                        splits += 1;
+                        self.ct.splits += 1;
+                        if splits > 64 {
+                            return Err(format!("draw {}: more than 64 piece splits", d));
+                        }
+                        pre.push(s);
+                        let want = self.obs_fb(pre, fb);
+                        pre.pop();
+                        let (mut lo, mut hi) = (s, tw);
+                        while hi - lo > 1 {
+                            let m = lo + (hi - lo) / 2;
+                            pre.push(m);
+                            let got = self.obs_fb(pre, fb);
+                            pre.pop();
+                            if got == want {
+                                lo = m
+                            } else {
+                                hi = m
+                            }
+                        }
+                        self.note_boundary(hi);
+                        let so2 = self.sig(pre, hi);
+                        todo.push_front((hi, end, so2));
+                        end = hi as u128;
+                        continue;
                     }
                     match bad {
                         None => break,
@@ -725,6 +854,7 @@ impl<'a> Ex<'a> {
                         }
                     }
                 }
+                self.validated.insert((pre.clone(), s, end));
                 done.push((s, end, so, false, Some(t)));
             }
             // decide the candidates: a retry word followed by ANY explored path of this node must end where that path ends
@@ -857,8 +987,11 @@ impl<'a> Ex<'a> {
             let prob = if k < KMAX { 0.5f64.powi(k as i32 + 1) } else { 0.5f64.powi(KMAX as i32) };
             // merge with an explored class that behaves identically
             let mut child: Option<Rc<Tree>> = None;
+            let mut child_pre = pre.clone();
+            child_pre.push(rep);
+            let may_merge = !self.nomerge.contains(&child_pre) && !self.memo.contains_key(&child_pre);
             for (j, sj) in sigs.iter().enumerate() {
-                if *sj == so {
+                if *sj == so && may_merge {
                     let t = pieces[j].child.clone().unwrap();
                     let mut lv = vec![];
                     Self::leaves_of(&t, &mut vec![], &mut lv);
@@ -896,33 +1029,33 @@ impl<'a> Ex<'a> {
         Ok(Rc::new(Tree::Node { ones: true, pieces }))
     }
 
-    /// Monte-Carlo validation of the finished tree: random word streams must end in the leaf the tree predicts
-    fn mc_validate(&mut self, tree: &Rc<Tree>, samples: u64, seed: u64) -> Result<(), String> {
+    /// Monte-Carlo validation of the finished tree: random word streams must end in the leaf the tree predicts.
+    /// A failing stream is returned as a counterexample for `refine`.
+    fn mc_validate(&mut self, tree: &Rc<Tree>, samples: u64, seed: u64) -> Result<(), (String, Option<Counterexample>)> {
         for i in 0..samples {
             let fb = seed.wrapping_mul(0x9E37_79B9).wrapping_add(i).wrapping_add(0xABCD_0000);
             let o = self.obs_fb(&[], fb);
             self.ct.mc_checks += 1;
             let mut stream = SplitMix64::new(fb);
             let mut used = 0u32;
+            let mut words: Vec<u64> = vec![];
             let mut t: &Tree = tree;
-            let mut trace: Vec<String> = vec![];
             loop {
                 match t {
                     Tree::Leaf(out) => {
                         if *out != o.out || used != o.cons {
-                            if std::env::var("KERN_DEBUG").is_ok() {
-                                eprintln!("MC mismatch trace: {}", trace.join(" | "));
-                            }
-                            return Err(format!("random stream {}: tree predicts outcome {} after {} draws, real code gave {} after {}", i, out, used, o.out, o.cons));
+                            let why = format!("random stream {}: tree predicts outcome {} after {} draws, real code gave {} after {}", i, out, used, o.out, o.cons);
+                            return Err((why, Some(Counterexample { words, seed: fb })));
                         }
                         break;
                     }
                     Tree::Trunc => break,
                     Tree::Node { ones, pieces } => {
                         let wd = stream.next();
+                        words.push(wd);
                         used += 1;
                         if used > 4096 {
-                            return Err("random stream: walk too long".into());
+                            return Err(("random stream: walk too long".into(), None));
                         }
                         let p = if *ones {
                             let k = (wd.trailing_ones()).min(KMAX);
@@ -930,16 +1063,117 @@ impl<'a> Ex<'a> {
                         } else {
                             match pieces.iter().find(|p| (p.start as u128) <= wd as u128 && (wd as u128) < p.end) {
                                 Some(p) => p,
-                                None => return Err("random stream: no piece".into()),
+                                None => return Err(("random stream: no piece".into(), None)),
                             }
                         };
-                        trace.push(format!("{:016x} in [{:016x},{:x}) of {}{}", wd, p.start, p.end, pieces.len(), if p.retry { " retry" } else { "" }));
                         if p.retry {
                             continue;
                         }
                         t = p.child.as_ref().unwrap();
                     }
                 }
+            }
+        }
+        Ok(())
+    }
+
+    /// Counterexample-guided refinement. The stream `cx.words` ends, according to the tree, in a leaf whose claim the
+    /// real code does not meet. Replacing the words one position after the other (from the front) by the representatives of
+    /// their pieces must at some position turn the disagreement into agreement: there, with an identical continuation, a
+    /// word and the representative of its piece behave differently, so that piece is cut (by bisection) and the row is
+    /// explored again (subtrees that are not on the path are re-used).
+    fn refine(&mut self, tree: &Rc<Tree>, cx: &Counterexample) -> Result<(), String> {
+        // walk again, collecting (node prefix, piece start, word) for the non-retried words
+        let mut t: &Tree = tree;
+        let mut prefix: Vec<u64> = vec![];
+        let mut levels: Vec<(Vec<u64>, u64, u64, bool)> = vec![]; // (node prefix, representative, word, ones-node)
+        let mut kept: Vec<u64> = vec![];
+        let mut it = cx.words.iter();
+        let claim_out;
+        loop {
+            match t {
+                Tree::Leaf(out) => {
+                    claim_out = *out;
+                    break;
+                }
+                Tree::Trunc => return Err("counterexample ends in a truncated branch".into()),
+                Tree::Node { ones, pieces } => {
+                    let wd = match it.next() {
+                        Some(w) => *w,
+                        None => return Err("counterexample shorter than the tree path".into()),
+                    };
+                    let p = if *ones { &pieces[(wd.trailing_ones()).min(KMAX) as usize] } else { pieces.iter().find(|p| (p.start as u128) <= wd as u128 && (wd as u128) < p.end).unwrap() };
+                    if p.retry {
+                        continue;
+                    }
+                    levels.push((prefix.clone(), p.rep, wd, *ones));
+                    kept.push(wd);
+                    prefix.push(p.rep);
+                    t = p.child.as_ref().unwrap();
+                }
+            }
+        }
+        let k = levels.len();
+        // continuation after the path: the rest of the same stream
+        let mut stream = SplitMix64::new(cx.seed);
+        for _ in 0..cx.words.len() {
+            stream.next();
+        }
+        let rest: Vec<u64> = (0..256).map(|_| stream.next()).collect();
+        let claim = (claim_out, k as u32);
+        let run_h = |me: &mut Self, j: usize, wj: Option<u64>| -> (u32, u32) {
+            // representatives for positions < j, the stream's words from j on (position j optionally replaced)
+            let mut sc: Vec<u64> = levels[..j].iter().map(|l| l.1).collect();
+            for (i, w) in kept.iter().enumerate().skip(j) {
+                sc.push(if i == j { wj.unwrap_or(*w) } else { *w });
+            }
+            sc.extend_from_slice(&rest);
+            let o = me.obs_fb(&sc, 1);
+            (o.out, o.cons)
+        };
+        if run_h(self, k, None) != claim {
+            return Err("the path of representatives does not reproduce the leaf".into());
+        }
+        if run_h(self, 0, None) == claim {
+            return Err("the counterexample disappears when the discarded words are removed (a retry piece is wrong)".into());
+        }
+        // largest j whose hybrid is bad; then hybrid j+1 is good
+        let mut j = k - 1;
+        loop {
+            if run_h(self, j, None) != claim {
+                break;
+            }
+            if j == 0 {
+                return Err("no position explains the counterexample".into());
+            }
+            j -= 1;
+        }
+        let (node_pre, rep, wd, ones) = levels[j].clone();
+        if ones {
+            return Err(format!("draw {}: words with the same number of trailing ones behave differently", j));
+        }
+        let (mut lo, mut hi) = (rep, wd); // good at lo (hybrid j+1), bad at hi (hybrid j)
+        while hi - lo > 1 {
+            let m = lo + (hi - lo) / 2;
+            if run_h(self, j, Some(m)) == claim {
+                lo = m
+            } else {
+                hi = m
+            }
+        }
+        self.note_boundary(hi);
+        self.hints.entry(node_pre.clone()).or_default().push(hi);
+        // forget everything on the path to that node, and make sure the path is explored under its own prefix
+        for len in 0..=node_pre.len() {
+            self.memo.remove(&node_pre[..len]);
+            if len > 0 {
+                self.nomerge.insert(node_pre[..len].to_vec());
+            }
+        }
+        let stale: Vec<(Vec<u64>, u64, u128)> = self.validated.iter().filter(|v| v.0.len() <= node_pre.len() && node_pre.starts_with(&v.0)).cloned().collect();
+        for v in stale {
+            if v.0 == node_pre {
+                self.validated.remove(&v);
             }
         }
         Ok(())
@@ -955,14 +1189,14 @@ fn trunc_of(t: &Tree, p: f64) -> f64 {
     }
 }
 
-fn row_of(t: &Tree, p: f64, row: &mut HashMap<u32, f64>) {
+fn row_of(t: &Tree, p: f64, canon: &[u32], row: &mut HashMap<u32, f64>) {
     match t {
-        Tree::Leaf(o) => *row.entry(*o).or_insert(0.0) += p,
+        Tree::Leaf(o) => *row.entry(canon[*o as usize]).or_insert(0.0) += p,
         Tree::Trunc => {}
         Tree::Node { pieces, .. } => {
             for pc in pieces {
                 if let Some(ch) = &pc.child {
-                    row_of(ch, p * pc.prob, row);
+                    row_of(ch, p * pc.prob, canon, row);
                 }
             }
         }
@@ -1004,12 +1238,26 @@ fn measure(sys: &dyn Sys, intern: &mut Interner, max_cfgs: usize, mc: u64, seed:
     while let Some(id) = queue.pop_front() {
         let cfg = intern.cfgs[id as usize].clone();
         for (k, spec) in ks.iter().enumerate() {
-            let mut ex = Ex { sys, cfg: cfg.clone(), k, intern, cache: &mut cache, ct: &mut ct, eps: spec.eps, trunc: 0.0, maxdepth: if spec.eps > 0.0 { 400 } else { 96 }, budget: 100_000 };
-            let tree = ex.explore(&mut vec![], 1.0).map_err(|e| format!("kernel {} from {}: {}", spec.name, cfg.show(), e))?;
-            ex.mc_validate(&tree, mc, seed ^ (id as u64) << 8 ^ k as u64).map_err(|e| format!("kernel {} from {}: {}", spec.name, cfg.show(), e))?;
+            let mut ex = Ex { sys, cfg: cfg.clone(), k, intern, cache: &mut cache, ct: &mut ct, eps: spec.eps, trunc: 0.0, maxdepth: if spec.eps > 0.0 { 400 } else { 96 }, budget: 100_000, memo: HashMap::new(), validated: Default::default(), hints: HashMap::new(), nomerge: Default::default() };
+            let mut rounds = 0;
+            let tree = loop {
+                let tree = ex.explore(&mut vec![], 1.0).map_err(|e| format!("kernel {} from {}: {}", spec.name, cfg.show(), e))?;
+                match ex.mc_validate(&tree, mc, seed ^ (id as u64) << 8 ^ k as u64) {
+                    Ok(()) => break tree,
+                    Err((why, None)) => return Err(format!("kernel {} from {}: {}", spec.name, cfg.show(), why)),
+                    Err((why, Some(cx))) => {
+                        rounds += 1;
+                        if rounds > 400 {
+                            return Err(format!("kernel {} from {}: no consistent draw tree after 400 refinements ({})", spec.name, cfg.show(), why));
+                        }
+                        ex.refine(&tree, &cx).map_err(|e| format!("kernel {} from {}: {} / {}", spec.name, cfg.show(), why, e))?;
+                        ex.ct.refinements += 1;
+                    }
+                }
+            };
             let tr = trunc_of(&tree, 1.0);
             let mut row = HashMap::new();
-            row_of(&tree, 1.0, &mut row);
+            row_of(&tree, 1.0, &intern.canon, &mut row);
             for (o, p) in row.iter() {
                 if *p > 0.0 && !pos.contains_key(o) {
                     let c = &intern.cfgs[*o as usize];
@@ -1180,6 +1428,7 @@ fn run_system(mode: &str, sys: &dyn Sys, a: &Args, tally: &mut Tally) {
             stat("kern_retry_pieces", m.ct.retry_pieces);
             stat("kern_trailing_ones_draws", m.ct.ones_nodes);
             stat("kern_random_stream_validations", m.ct.mc_checks);
+            stat("kern_counterexample_refinements", m.ct.refinements);
             for (k, spec) in ks.iter().enumerate() {
                 tally.cases += 1;
                 let nz: usize = m.rows[k].iter().map(|r| r.len()).sum();
@@ -1193,8 +1442,8 @@ fn run_system(mode: &str, sys: &dyn Sys, a: &Args, tally: &mut Tally) {
             }
             if std::env::var("KERN_DEBUG").is_ok() {
                 eprintln!(
-                    "[{:.1}s] {} {}: {} cfgs, {} leaves, {} runs, {} nodes, {} splits, {} bisections, {} cache hits, {} merges, {} retry, {} ones",
-                    t0.elapsed().as_secs_f64(), mode, sys.describe(), m.ids.len(), m.ct.leaves, m.ct.runs, m.ct.nodes, m.ct.splits, m.ct.bisections, m.ct.cache_hits, m.ct.merges, m.ct.retry_pieces, m.ct.ones_nodes
+                    "[{:.1}s] {} {}: {} cfgs, {} leaves, {} runs, {} nodes, {} splits, {} bisections, {} cache hits, {} merges, {} retry, {} ones, {} refinements",
+                    t0.elapsed().as_secs_f64(), mode, sys.describe(), m.ids.len(), m.ct.leaves, m.ct.runs, m.ct.nodes, m.ct.splits, m.ct.bisections, m.ct.cache_hits, m.ct.merges, m.ct.retry_pieces, m.ct.ones_nodes, m.ct.refinements
                 );
             }
         }
